@@ -310,8 +310,9 @@ def run_c05(R, tier, rng):
                 f = getattr(np, meth)
                 def pick(v):
                     v = np.asarray(v); return {"array": [key(v[i]) for i in ne], "dtype": str(v.dtype) if ne else "-", "n": len(v)}
-                C.cmp(f"{meth} {dt} {ls}", meth, nt, lambda: pick(getattr(mk(), meth)(axis=-1)),
-                      lambda: {"array": [key(f(rows[i])) for i in ne], "dtype": str(f(np.array([1], dtype=dt)).dtype) if ne else "-", "n": n}, py=f"RaggedArray({X}, dtype='{dt}').{meth}(axis=-1)  (non-empty rows compared)")
+                for axis in (-1, 1):
+                    C.cmp(f"{meth} axis={axis} {dt} {ls}", meth, nt, lambda: pick(getattr(mk(), meth)(axis=axis)),
+                          lambda: {"array": [key(f(rows[i])) for i in ne], "dtype": str(f(np.array([1], dtype=dt)).dtype) if ne else "-", "n": n}, py=f"RaggedArray({X}, dtype='{dt}').{meth}(axis={axis})  (non-empty rows compared)")
                 if ne and meth != "mean":
                     uf = np.maximum if meth == "max" else np.minimum
                     C.cmp(f"np.{uf.__name__}.reduce {dt} {ls}", "ufunc.reduce/" + uf.__name__, nt, lambda: pick(uf.reduce(mk(), axis=-1)),
@@ -325,8 +326,9 @@ def run_c05(R, tier, rng):
                 for meth in ("argmax", "argmin"):
                     f = getattr(np, meth)
                     # one entry per non-empty row, in row order (DESIGN 4.5)
-                    C.cmp(f"{meth} {dt} {ls}", meth, nt, lambda: [int(v) for v in getattr(mk(), meth)(axis=-1)], lambda: [int(f(rows[i])) for i in ne],
-                          py=f"RaggedArray({X}, dtype='{dt}').{meth}(axis=-1)")
+                    for axis in (-1, 1):
+                        C.cmp(f"{meth} axis={axis} {dt} {ls}", meth, nt, lambda: [int(v) for v in getattr(mk(), meth)(axis=axis)], lambda: [int(f(rows[i])) for i in ne],
+                              py=f"RaggedArray({X}, dtype='{dt}').{meth}(axis={axis})")
 
 
 # ------------------------------------------------------------------------------------------------ C07
